@@ -118,32 +118,41 @@ Family(inits, ncs, lims, kinds, both, lists) ==
 Limits == (0 .. 13) \cup {NoLimit}
 All4   == {"std", "x35", "full", "int"}
 
-Scenarios ==
-  CASE Cfg = "dbg"  -> Family({"std"}, {FALSE}, {NoLimit}, {"builtin"}, FALSE,
+RECURSIVE Fam(_)
+Fam(c) ==
+  CASE c = "dbg"  -> Family({"std"}, {FALSE}, {NoLimit}, {"builtin"}, FALSE,
                               {<<R(1, "out", "a", -1), R(1, "out", "m", -1)>>})
-    [] Cfg = "neg"  -> Family({"std", "x35"}, BOOLEAN, {NoLimit}, {"builtin", "exec"}, FALSE,
+    [] c = "neg"  -> Family({"std", "x35"}, BOOLEAN, {NoLimit}, {"builtin", "exec"}, FALSE,
                               Seq1(Small \cup Alpha({1}, {"clob"}, {"a"}, {}, {})) \cup Seq2(Small, Small))
-    [] Cfg = "tiny" -> Family({"std", "x35"}, {FALSE}, {NoLimit, 11}, {"builtin", "exec"}, TRUE,
+    [] c = "tiny" -> Family({"std", "x35"}, {FALSE}, {NoLimit, 11}, {"builtin", "exec"}, TRUE,
                               Seq1(Small) \cup {<<>>})
     \* quick -----------------------------------------------------------------
     \* every single redirection x every command kind, no limit
-    [] Cfg = "q1" -> Family({"std", "x35"}, BOOLEAN, {NoLimit}, AllKinds, TRUE, Seq1(Full1) \cup {<<>>})
+    [] c = "q1" -> Family({"std", "x35"}, BOOLEAN, {NoLimit}, AllKinds, TRUE, Seq1(Full1) \cup {<<>>})
                      \cup Family({"full", "int"}, {FALSE}, {NoLimit}, CoreKinds, TRUE,
                                  Seq1(Alpha({0, 1, 3}, AllOps, {"a", "m"}, {1, 4, 10}, AllMisc)))
     \* single redirections under every descriptor limit
-    [] Cfg = "q2" -> Family(All4, {FALSE}, 0 .. 13, {"builtin", "exec", "empty"}, FALSE, Seq1(Lim1))
+    [] c = "q2" -> Family(All4, {FALSE}, 0 .. 13, {"builtin", "exec", "empty"}, FALSE, Seq1(Lim1))
     \* pairs, no limit
-    [] Cfg = "q3" -> Family({"std", "x35"}, BOOLEAN, {NoLimit}, CoreKinds \cup {"function"}, FALSE,
+    [] c = "q3" -> Family({"std", "x35"}, BOOLEAN, {NoLimit}, CoreKinds \cup {"function"}, FALSE,
                             Seq2(Small, Small))
     \* pairs under the limits where the second saved copy does not fit
-    [] Cfg = "q4" -> Family({"std", "int"}, {FALSE}, {10, 11, 12}, {"builtin", "exec", "empty"}, FALSE,
+    [] c = "q4" -> Family({"std", "int"}, {FALSE}, {10, 11, 12}, {"builtin", "exec", "empty"}, FALSE,
                             Seq2(Small, Small))
+    [] c = "quick" -> Fam("q1") \cup Fam("q2") \cup Fam("q3") \cup Fam("q4")
+    \* a small family that exercises every action (run with -coverage)
+    [] c = "cov" -> Family({"int"}, BOOLEAN, {NoLimit, 11}, AllKinds, TRUE,
+                            Seq1(Alpha({1}, AllOps, {"a", "m", "d", "t"}, {1, 4, 10}, AllMisc))
+                            \cup {<<R(1, "out", "m", -1), R(1, "app", "a", -1)>>, <<>>})
     \* thorough --------------------------------------------------------------
-    [] Cfg = "t1" -> Family(All4, BOOLEAN, Limits, AllKinds, TRUE, Seq1(Full1) \cup {<<>>})
-    [] Cfg = "t2" -> Family({"std", "x35"}, BOOLEAN, {NoLimit}, AllKinds, FALSE, Seq2(Mid, Mid))
-    [] Cfg = "t3" -> Family(All4, {FALSE}, 3 .. 13, CoreKinds \cup {"function"}, FALSE, Seq2(Small, Small))
-    [] Cfg = "t4" -> Family({"std", "x35"}, BOOLEAN, {NoLimit, 12}, {"builtin", "exec", "empty"}, FALSE,
+    [] c = "t1" -> Family(All4, BOOLEAN, Limits, AllKinds, TRUE, Seq1(Full1) \cup {<<>>})
+    [] c = "t2" -> Family({"std", "x35"}, BOOLEAN, {NoLimit}, AllKinds, FALSE, Seq2(Mid, Mid))
+    [] c = "t3" -> Family(All4, {FALSE}, 3 .. 13, CoreKinds \cup {"function"}, FALSE, Seq2(Small, Small))
+    [] c = "t4" -> Family({"std", "x35"}, BOOLEAN, {NoLimit, 12}, {"builtin", "exec", "empty"}, FALSE,
                             Seq3(Small, Small, Small))
+    [] c = "thorough" -> Fam("t1") \cup Fam("t2") \cup Fam("t3") \cup Fam("t4")
+
+Scenarios == Fam(Cfg)
 
 -----------------------------------------------------------------------------
 Runs(kind)   == kind \in {"special", "builtin", "function", "group", "subshell"}
